@@ -257,4 +257,76 @@ theorem readUlebU32_iff (bs : Bytes) (v : Nat) (rest : Bytes) :
   | panic w => simp
   | diverge => simp
 
+
+theorem toSigned_range (n : Nat) (hn : 0 < n) (v : Nat) :
+    -(2 : Int) ^ (8 * n - 1) ≤ toSigned n v ∧ toSigned n v < 2 ^ (8 * n - 1) := by
+  unfold toSigned
+  have hp : (2 : Nat) ^ (8 * n) = 2 * 2 ^ (8 * n - 1) := by
+    rw [← Nat.pow_succ']; congr 1; omega
+  have hm := Nat.mod_lt v (show 0 < 2 ^ (8 * n) from Nat.pow_pos (by decide))
+  have hc : ((2 : Nat) ^ (8 * n - 1) : Int) = (2 : Int) ^ (8 * n - 1) := by push_cast; rfl
+  have hc2 : ((2 : Nat) ^ (8 * n) : Int) = (2 : Int) ^ (8 * n) := by push_cast; rfl
+  split <;> omega
+
+/-- `write_sdata` succeeds for sizes 1/2/4 exactly when the value is in the signed range of that
+size (never truncates), always for size 8 (given an `i64`), never for other sizes -/
+theorem writeSdata_ok_iff (e : Endian) (val : Int) (size : Nat)
+    (hlo : -(2 : Int) ^ 63 ≤ val) (hhi : val < 2 ^ 63) :
+    (∃ bs, writeSdata e val size = .ok bs) ↔
+      (size = 1 ∨ size = 2 ∨ size = 4 ∨ size = 8) ∧
+        -(2 : Int) ^ (8 * size - 1) ≤ val ∧ val < 2 ^ (8 * size - 1) := by
+  unfold writeSdata
+  constructor
+  · rintro ⟨bs, h⟩
+    split at h
+    · rename_i hs
+      simp only at h
+      split at h
+      · simp at h
+      · rename_i hfit
+        have heq : toSigned size (val % 2 ^ (8 * size)).toNat = val := Decidable.of_not_not hfit
+        have := toSigned_range size (by omega) (val % 2 ^ (8 * size)).toNat
+        rw [heq] at this
+        exact ⟨by omega, this⟩
+    · split at h
+      · rename_i h8; subst h8; exact ⟨by omega, by simpa using hlo, by simpa using hhi⟩
+      · simp at h
+  · rintro ⟨hs, hlo', hhi'⟩
+    by_cases h124 : size = 1 ∨ size = 2 ∨ size = 4
+    · simp only [h124, if_true]
+      have hfit : toSigned size (val % 2 ^ (8 * size)).toNat = val := by
+        unfold toSigned
+        rcases h124 with rfl | rfl | rfl <;> split <;> omega
+      simp [hfit]
+    · have : size = 8 := by omega
+      simp [this]
+
+
+theorem leVal_zeros (k : Nat) : leVal (List.replicate k (0 : UInt8)) = 0 := by
+  induction k with
+  | zero => rfl
+  | succ k ih => simp [List.replicate_succ, leVal, ih]
+
+theorem leVal_append_zeros (a : Bytes) (k : Nat) : leVal (a ++ List.replicate k 0) = leVal a := by
+  induction a with
+  | nil => simp [leVal_zeros, leVal]
+  | cons b a ih => simp [leVal, ih]
+
+/-- `read_uint(n)`, `n ≤ 8`: exactly `n` bytes are consumed and the result is their positional
+value in the reader's byte order (the zero padding to 8 bytes goes on the high-order side in both
+orders) -/
+theorem readUint_eq (e : Endian) (n : Nat) (bs : Bytes) (hn : n ≤ 8) :
+    readUint e n bs =
+      if n ≤ bs.length then .ok (fromBytes e (bs.take n), bs.drop n) else .err .rUnexpectedEof := by
+  unfold readUint
+  have h8 : ¬ n > 8 := by omega
+  simp only [h8, if_false]
+  by_cases hl : n ≤ bs.length
+  · rw [take_ok _ _ hl]
+    simp only [Out.bind_ok, Out.pure_eq, hl, if_true]
+    cases e with
+    | little => simp [fromBytes, leVal_append_zeros]
+    | big => simp [fromBytes, List.reverse_append, leVal_append_zeros]
+  · rw [take_eof _ _ (by omega)]; simp [hl]
+
 end Gimli.Ints
